@@ -383,6 +383,26 @@ def run_js_bytes(res, tier, sample_idx, rng):
                                           {'mode': 'js-bytes', 'text': text, 'policy': policy, 'comment': comment, 'header': header, 'encoding': encoding, 'pieces': p_})
                             break
         res.sample({'mode': 'js-bytes', 'encoding': encoding, 'text': text, 'partitions': len(parts)})
+        # many short records in small chunks that arrive on event-loop turns of their own, read by a consumer that yields to the event loop every so
+        # many records (the producer runs ahead, a backlog of tens to hundreds of records builds up and drains again) - against one read of the whole
+        if sample_idx < 4:
+            nrec = [120, 300, 700, 1500][sample_idx]
+            data = ''.join('%d,%s\n' % (i, 'x' * (i % 5)) for i in range(nrec)).encode()
+            n = len(data)
+            base = {'bytes_hex': data.hex(), 'encoding': 'utf-8', 'delim': ',', 'policy': 'quoted', 'has_header': False, 'comment_prefix': None}
+            reqs = [dict(base, chunks=[n])]
+            for csize in (37, 150, 600, 4000):
+                chunks = [csize] * (n // csize) + ([n % csize] if n % csize else [])
+                for pause in (0, 1, 2, 7):
+                    reqs.append(dict(base, chunks=chunks, async_delivery=True, consumer_pause_every=pause))
+            outs = node.call({'op': 'read_batch', 'cases': reqs})['results']
+            whole = key(outs[0])
+            for rq, o in zip(reqs[1:], outs[1:]):
+                res.evaluations += 1
+                res.count('js_lagging_consumer_runs')
+                if key(o) != whole:
+                    res.violation('js-chunk-dependence-lagging-consumer', '[js stream] %d records in chunks of %d bytes delivered asynchronously, consumer pausing every %d records -> %d records (error %r, stuck %r) ; in one read -> %d records' % (
+                        nrec, rq['chunks'][0], rq['consumer_pause_every'], len(o['records']), o['error'], o.get('stuck'), len(outs[0]['records'])), {'mode': 'js-lagging', 'records': nrec, 'chunk': rq['chunks'][0], 'pause_every': rq['consumer_pause_every']})
     finally:
         node.close()
 
@@ -444,9 +464,9 @@ def run_shard(spec, res):
 
 def summarize(tier, seed, m):
     return {
-        'rule': 'every text of length <= %d over {a, quote, comma, LF, CR, #, space} x all 2^(n-1) partitions into successive reads (chunk_size n+1) x policies {simple, quoted, quoted_rfc} x comment prefix {none, #} x header {off, on}; length %d with header off (quick tier: 4 of the 6 policy x comment configurations at that length); for each text also chunk_size 1..n on the undivided text; every byte partition of %d multi-byte UTF-8 / latin-1 / BOM samples through a RawIOBase; the same samples (+ three with 4-byte characters at every position) through the JS stream reader, every partition (short) or every one- and two-cut, byte-by-byte and random partition (long) against the whole content in one read; random longer texts with random partitions and chunk sizes (text and byte level); lines and quoted_rfc records of 1100-6000 characters delivered one, two or 1-3 characters per read (thousands of reads per line) at chunk sizes 7 / 512 / 1024 / 4096; the same exhaustive differential up to 5 / 6 characters for 7 further dialects (semicolon, space + whitespace policy, space + quoted, monocolumn, multi-character delimiter with quoted_rfc and simple, tab) with single- and multi-character comment prefixes. Each whole read is also compared with the reference reader. distinct_nontrivial = (text, configuration) pairs whose text contains a line break or a quote.' % (FULL_LEN[tier], EXTRA_LEN[tier], len(byte_samples())),
+        'rule': 'every text of length <= %d over {a, quote, comma, LF, CR, #, space} x all 2^(n-1) partitions into successive reads (chunk_size n+1) x policies {simple, quoted, quoted_rfc} x comment prefix {none, #} x header {off, on}; length %d with header off (quick tier: 4 of the 6 policy x comment configurations at that length); for each text also chunk_size 1..n on the undivided text; every byte partition of %d multi-byte UTF-8 / latin-1 / BOM samples through a RawIOBase; the same samples (+ three with 4-byte characters at every position) through the JS stream reader, every partition (short) or every one- and two-cut, byte-by-byte and random partition (long) against the whole content in one read; 120-1500 short records in chunks of 37-4000 bytes delivered on separate event-loop turns to a consumer that yields every 0 / 1 / 2 / 7 records; random longer texts with random partitions and chunk sizes (text and byte level); lines and quoted_rfc records of 1100-6000 characters delivered one, two or 1-3 characters per read (thousands of reads per line) at chunk sizes 7 / 512 / 1024 / 4096; the same exhaustive differential up to 5 / 6 characters for 7 further dialects (semicolon, space + whitespace policy, space + quoted, monocolumn, multi-character delimiter with quoted_rfc and simple, tab) with single- and multi-character comment prefixes. Each whole read is also compared with the reference reader. distinct_nontrivial = (text, configuration) pairs whose text contains a line break or a quote.' % (FULL_LEN[tier], EXTRA_LEN[tier], len(byte_samples())),
         'exhaustive': True,
-        'required': ['partition_runs', 'js_byte_partition_runs', 'byte_partition_runs', 'byte_partition_runs_buffered_reader', 'reference_comparisons', 'chunk_size_runs', 'dialect_partition_runs', 'dialect_reference_comparisons', 'very_long_line_runs'],
+        'required': ['partition_runs', 'js_byte_partition_runs', 'js_lagging_consumer_runs', 'byte_partition_runs', 'byte_partition_runs_buffered_reader', 'reference_comparisons', 'chunk_size_runs', 'dialect_partition_runs', 'dialect_reference_comparisons', 'very_long_line_runs'],
         'assumptions': ['all delivery sequences a stream can produce are covered by enumerating partitions under a large chunk_size (a read(k) request returns min(piece, k)) plus the chunk-size sweep',
                         'rv.model.refcsv.read_text states the line-ending / comment / multi-line / BOM rules'],
     }
